@@ -8,3 +8,6 @@ import MhlModel.History
 import MhlModel.Seal
 import MhlModel.Commands
 import MhlModel.DirHash
+import MhlModel.Time
+import MhlModel.Updater
+import MhlModel.Crash
